@@ -231,7 +231,7 @@ def main(argv=None):
                     results[futs[f].name] = r
 
         # 4. classify
-        violations, inconcl, herr = [], [], []
+        violations, inconcl, herr, notenc = [], [], [], []
         for job in jobs:
             r = results[job.name]
             if isinstance(job, CH):
@@ -273,6 +273,10 @@ def main(argv=None):
                 elif s == "unsat":
                     if not r.get("vacuity_ok", True):
                         inconcl.append((job.name, "vacuity check failed"))
+                elif s == "not_encoded":
+                    # the current source is outside what the translator accepts: nothing was explored by this obligation
+                    # (not-applicable on this tree, reported and recorded; the other obligations still decide the property)
+                    notenc.append((job.name, r.get("detail", "")[:300]))
                 elif s == "unknown":
                     inconcl.append((job.name, "solver unknown/timeout: " + r.get("detail", "")[:200]))
                 else:
@@ -281,6 +285,8 @@ def main(argv=None):
         for name, path, out in violations:
             print(f"VIOLATION property={prop} replay={path}")
             print(f"  job={name}: {out}")
+        for name, why in notenc:
+            print(f"NOT-ENCODED property={prop} job={name}: {why} (obligation not applicable to this source; not counted as discharged)")
         for name, why in inconcl:
             print(f"INCONCLUSIVE property={prop} job={name}: {why}")
         for name, why in herr:
@@ -299,7 +305,7 @@ def main(argv=None):
         n_smt = len(jobs) - n_ch
         paths = sum(results[j.name].get("paths", 0) for j in jobs if isinstance(j, CH))
         print(f"{prop} {a.tier}: {len(jobs)} obligations ({n_ch} symbolic-execution, {n_smt} solver), "
-              f"{len(jobs) - len(violations) - len(inconcl) - len(herr)} discharged, {paths} paths, "
+              f"{len(jobs) - len(violations) - len(inconcl) - len(herr) - len(notenc)} discharged, {paths} paths, "
               f"{round(time.time() - t_start, 1)} s, exit {exit_code}")
     finally:
         if a.keep:
@@ -343,7 +349,8 @@ def write_evidence(prop, tier, seed, mod, jobs, results, known_active, violation
     meta = getattr(mod, "META", {})
     if not samples:
         samples = [{"obligation": j.name} for j in jobs[:3]]
-    discharged = len(jobs) - len(bad)
+    not_encoded = [(j.name, results[j.name].get("detail", "")[:300]) for j in jobs if isinstance(j, SMT) and results[j.name]["status"] == "not_encoded"]
+    discharged = len(jobs) - len(bad) - len(not_encoded)
     ev = {
         "property_id": prop,
         "tier": tier,
@@ -360,7 +367,8 @@ def write_evidence(prop, tier, seed, mod, jobs, results, known_active, violation
             "samples": samples,
             "obligations": len(jobs),
             "discharged": discharged,
-            "exhaustive": not bad,
+            "exhaustive": not bad and not not_encoded,
+            "not_encoded": [list(x) for x in not_encoded],
             "paths_explored": paths,
             "oracle_paths": oracle,
             "smt_queries": queries,
@@ -373,7 +381,11 @@ def write_evidence(prop, tier, seed, mod, jobs, results, known_active, violation
             "inconclusive": [list(x) for x in inconcl],
             "harness_errors": [list(x)[:2] for x in herr],
         },
-        "assumptions": meta.get("assumptions", []),
+        "assumptions": list(meta.get("assumptions", [])) + [
+            "every CrossHair path models the input handed to a freshly started interpreter: module- and class-level state of the jaqalpaq modules is put back "
+            "to its import-time contents before each path (vf/harness/isolate.py); state leaking between calls is observed only by the history obligations",
+            "CrossHair engine patches of vf/ch_plugin.py (format, int, hash, set, dict.get, user __format__), re-proved by the plugin_selftest obligations of this run",
+            "oracles (reference meaning, re-parse of generated text, numeric back end) run natively on realised values (vf/harness/common.py: concretely)"],
         "wall_s": round(wall, 2),
         "violations": len(violations),
     }
